@@ -68,7 +68,45 @@ def from_description(d):
 def run_case(k, cuda=False, **over):
     return wc.run_wavesim(k.c, over.get('delays', k.delays), over.get('sims', k.sims), over.get('caps', k.caps),
                           over.get('reuse', k.reuse), over.get('strip', k.strip), k.s0, k.s1, k.s2, k.extra, k.tcap,
-                          a_ctrl=k.a_ctrl, cuda=cuda)
+                          a_ctrl=k.a_ctrl, cuda=cuda, warm=over.get('warm'))
+
+
+def warm_round(rng, k):
+    """stimulus of an earlier round on the same simulator object: busy, with directly written multi-transition waveforms that fill
+    the three slots s_to_c owns (and more) at most positions"""
+    return wc.gen_stimulus(rng, k.c, k.sims, tmax=30, extra_prob=0.8, max_trans=rng.choice([3, 3, 2]), busy=True)
+
+
+def same_as_fresh(k, w, w2):
+    """a round on a USED simulator (w2, after warm_round) must give what the fresh simulator (w) gives: every capture result, every
+    tracked waveform up to its terminator, and the accumulator increments -> None | text"""
+    a, b = np.asarray(w.s)[3:11], np.asarray(w2.s)[3:11]
+    if not np.array_equal(a, b, equal_nan=True):
+        i = np.argwhere(~((a == b) | (np.isnan(a) & np.isnan(b))))[0]
+        return f'capture result s[{3 + int(i[0])}] of s_node {int(i[1])}, lane {int(i[2])} is {b[tuple(i)]} on a used simulator, {a[tuple(i)]} on a fresh one'
+    nidx = len(k.c.lines) if not k.reuse else 0
+    for idx in list(range(nidx)) + [int(w.ppi_offset) + p for p in range(len(k.c.s_nodes))]:
+        for lane in range(k.sims):
+            x, y = wo.waveform(w, idx, lane), wo.waveform(w2, idx, lane)
+            if x != y:
+                return f'waveform of signal {idx}, lane {lane} is {y} on a used simulator, {x} on a fresh one'
+    if w.abuf_len > 0:
+        d = np.asarray(w2.abuf) - (w2.abuf_warm if w2.abuf_warm is not None else 0)
+        if not np.array_equal(d, np.asarray(w.abuf)):
+            return f'accumulated activity of the round on a used simulator is {d.tolist()}, on a fresh one {np.asarray(w.abuf).tolist()}'
+    return None
+
+
+def warm_replay(d):
+    """replay of a 'simulator reuse' failure: True if the used simulator still differs from the fresh one"""
+    k = from_description(d)
+    wr = d['warm_round']
+    warm = (np.array(wr['s0'], dtype=np.float32), np.array(wr['s1'], dtype=np.float32), np.array(wr['s2'], dtype=np.float32),
+            {(p, l): wf for p, l, wf in wr['extra']})
+    try:
+        return same_as_fresh(k, run_case(k), run_case(k, warm=warm)) is not None
+    except Exception:
+        return True
 
 
 def campaign(ck, n, oracle, gen_kw=None, coq_lanes=1, label='WaveSim', coq_every=1, stress_every=0, line_level=False):
@@ -100,6 +138,18 @@ def campaign(ck, n, oracle, gen_kw=None, coq_lanes=1, label='WaveSim', coq_every
             what = 'oracle raised ' + traceback.format_exc()[-400:]
         if what:
             fails.append((describe(k), what))
+        if i % 3 == 1:
+            # the same round on a simulator object that has already simulated another batch
+            wr = warm_round(rng, k)
+            try:
+                what = same_as_fresh(k, w, run_case(k, warm=wr))
+            except Exception:
+                what = 'raises on a used simulator ' + traceback.format_exc()[-400:]
+            ck.count(k.sims, 'used-simulator rounds')
+            if what:
+                d = describe(k)
+                d['warm_round'] = {'s0': wr[0].tolist(), 's1': wr[1].tolist(), 's2': wr[2].tolist(), 'extra': [[p, l, wf] for (p, l), wf in wr[3].items()]}
+                fails.append((d, 'simulator reuse: ' + what))
         if i % coq_every == 0:
             for lane in range(min(coq_lanes, k.sims)):
                 coq_cases.append(wc.coq_case(k.c, k.caps, k.reuse, k.strip, k.delays, w, lane, k.s0, k.s1, k.s2, k.extra, k.tcap, a_ctrl=k.a_ctrl))
